@@ -13,7 +13,7 @@ import c04
 import semrun
 import vlib
 
-FAMILIES = ["UA", "UT", "UD", "UI", "US", "F2", "F4", "F5", "F6"]
+FAMILIES = ["UA", "UT", "UD", "UI", "US", "UP", "F2", "F4", "F5", "F6"]
 EXHAUSTIVE_LIMIT = {"quick": 3500, "thorough": 10 ** 9}
 
 
@@ -86,6 +86,7 @@ def deep(ck, seed, families, n, depth):
 def run(tier, seed, replay):
     ck = vlib.Check("C06", tier, seed)
     ck.rule = ("behaviours = (template of families UA/UT/UD/UI/US/F2/F4/F5/F6) x D0 in a 3-object pool x one edit set from "
+               "Instance!EditsOn, plus family UP (one binding reading two of 12 dependency paths in 5 forms x 11 single-path edits, exact covering); "
                "Instance!EditsOn (15 subsets of 4 leaf toggles + structural list/object edits) x covering in {exact, "
                "coarse, true}; thorough adds random histories of length 2-3; non-trivial = behaviour whose template has "
                "a binding and whose step changes the data")
